@@ -178,7 +178,7 @@ def reader_sites(ctx, tab, sections):
     return out
 
 
-def r2_encoding_agreement(ctx, rule):
+def r2_encoding_agreement(ctx, rule, file_filter=None, entries=None, floor=25):
     tmods = ctx.resolver.closure(['trainer.py'])
     ttab = IOTable(ctx, tmods)
     writers, through, folders = writer_table(ctx, ttab)
@@ -189,12 +189,14 @@ def r2_encoding_agreement(ctx, rule):
     nread = 0
     bad = False
     table = []
-    for entry in (['pcfg_guesser.py', 'prince_ling.py'], ['password_scorer.py']):
+    for entry in (entries or (['pcfg_guesser.py', 'prince_ling.py'], ['password_scorer.py'])):
         mods = ctx.resolver.closure(entry)
         tab = IOTable(ctx, mods)
         seen = set()
         for fid, enc, kind, q, c in reader_sites(ctx, tab, sections):
             if fid not in writers:
+                continue
+            if file_filter is not None and not file_filter(fid):
                 continue
             key = (fid, enc, q)
             if key in seen:
@@ -212,7 +214,7 @@ def r2_encoding_agreement(ctx, rule):
                         'non-ASCII-compatible or non-locale encoding the values are mis-decoded or the ruleset cannot be '
                         'loaded (writer: %s)' % wq.partition('::')[2], {'file': fid, 'writer': wenc, 'reader': enc}, c)
     ctx.stats['call_sites'] += nread
-    if ctx.floor(rule, 'Rules/<name>', nread, 25, 'reader sites of trainer-written files') and not bad:
+    if ctx.floor(rule, 'Rules/<name>', nread, floor, 'reader sites of trainer-written files') and not bad:
         ctx.ok(rule, 'Rules/<name>', 'writer and reader encoding classes agree for all %d (file, reader) pairs' % nread,
                {'table': table})
     return writers, table
@@ -247,10 +249,14 @@ def write_layouts(ctx):
     return out
 
 
-def r3_record_layout(ctx, rule):
+def r3_record_layout(ctx, rule, scope='all'):
     n = 0
     # writer side
     for q, c, fields, seps in write_layouts(ctx):
+        if scope == 'omen' and q.endswith('calculate_and_save_counter'):
+            continue
+        if scope == 'pcfg' and not q.endswith('calculate_and_save_counter'):
+            continue
         n += 1
         facts = {'write': U(c)[:100], 'fields': [[U(x) for x in f] for f in fields], 'separators': seps}
         if seps and seps[-1] != '\n':
@@ -279,7 +285,7 @@ def r3_record_layout(ctx, rule):
                 ctx.bad(rule, q, 'OMEN record ' + U(c.args[0])[:80], 'OMEN files are level TAB n-gram LF (LN.level: level LF)',
                         facts, c)
     # reader side: value = field 0 (verbatim), prob = float(field 1)
-    for q in (GIO + '_load_from_file', SGIO + '_load_from_file'):
+    for q in ((GIO + '_load_from_file', SGIO + '_load_from_file') if scope != 'omen' else ()):
         fn = ctx.fn(q)
         n += 1
         split = None
@@ -304,7 +310,7 @@ def r3_record_layout(ctx, rule):
         else:
             ctx.bad(rule, q, 'field use %s' % uses, 'the value is field 0 (unchanged) and the probability float(field 1)', facts, split)
     # OMEN n-gram readers: level = int(field 0), n-gram = field 1
-    for q in (OIO + '_load_ngrams', OSC + '_load_omen'):
+    for q in ((OIO + '_load_ngrams', OSC + '_load_omen') if scope != 'pcfg' else ()):
         fn = ctx.fn(q)
         n += 1
         txt = U(fn)
@@ -312,15 +318,17 @@ def r3_record_layout(ctx, rule):
             ctx.ok(rule, q, 'level = int(field 0), n-gram = field 1')
         else:
             ctx.bad(rule, q, 'OMEN reader field use', 'level TAB n-gram expected', None, fn)
-    ctx.floor(rule, 'Rules/<name>', n, 10, 'record writer/reader sites')
+    ctx.floor(rule, 'Rules/<name>', n, {'all': 10, 'omen': 6, 'pcfg': 3}[scope], 'record writer/reader sites')
 
 
-def r5_strip_discipline(ctx, rule):
+def r5_strip_discipline(ctx, rule, only=None, floor=8):
     """Readers may only remove line terminators where the value is the last field; never strip the value field."""
     n = 0
     specs = [(GIO + '_load_from_file', 'first'), (SGIO + '_load_from_file', 'first'), (GIO + 'load_omen_keyspace', 'first'),
              (OIO + '_load_ngrams', 'last'), (OIO + '_load_alphabet', 'last'), (OSC + '_load_omen', 'last'),
              (GIO + '_load_base_structures', 'first')]
+    if only is not None:
+        specs = [x for x in specs if x[0] in only]
     for q, where in specs:
         fn = ctx.fn(q)
         for c in calls_in(fn):
@@ -341,7 +349,7 @@ def r5_strip_discipline(ctx, rule):
                     else:
                         ctx.ok(rule, q, '%s: only %s' % (U(c)[:40], 'line terminators removed' if only_eol else
                                                           'trailing whitespace after the last (numeric) field removed'))
-    ctx.floor(rule, 'readers', n, 8, 'strip-family calls on lines in the ruleset readers')
+    ctx.floor(rule, 'readers', n, floor, 'strip-family calls on lines in the ruleset readers')
 
 
 def r6_wipe_before_write(ctx, rule):
@@ -418,7 +426,7 @@ def r7_paths_written(ctx, rule):
 def rules(tier):
     return [('C07.R1', r1_separator_inclusion), ('C07.R2', lambda c, r: r2_encoding_agreement(c, r)),
             ('C07.R3', r3_record_layout), ('C07.R5', r5_strip_discipline), ('C07.R6', r6_wipe_before_write),
-            ('C07.R7', r7_paths_written), ('C07.R8', c04.r5_grouping_kernel), ('C07.R9', c03.r1_tag_chain)]
+            ('C07.R7', r7_paths_written), ('C07.R8', c04.r5_grouping_kernel), ('C07.R9', lambda c, r: c03.r1_tag_chain(c, r, scope='disk'))]
 
 
 META = {
